@@ -35,6 +35,10 @@ pub enum K {
     ChunkedWrite,
     ChunkedRead,
     EofRead,
+    WouldBlockWrite,
+    WouldBlockRead,
+    TimedOutRead,
+    ZeroWrite,
     N,
 }
 pub const K_NAMES: [&str; K::N as usize] = [
@@ -60,6 +64,10 @@ pub const K_NAMES: [&str; K::N as usize] = [
     "chunk_limited_write",
     "chunk_limited_read",
     "eof_read",
+    "wouldblock_write",
+    "wouldblock_read",
+    "timedout_read",
+    "zero_length_write",
 ];
 
 #[derive(Clone, Debug, Default)]
@@ -77,14 +85,14 @@ impl IoStats {
     }
     pub fn faults_fired(&self) -> u64 {
         use K::*;
-        [ShortWrite, ShortRead, EintrWrite, EintrRead, EioWrite, EnospcWrite, EioRead, FlushErr, CreateErr, OpenErr, ChunkedWrite, ChunkedRead]
+        [ShortWrite, ShortRead, EintrWrite, EintrRead, EioWrite, EnospcWrite, EioRead, FlushErr, CreateErr, OpenErr, ChunkedWrite, ChunkedRead, WouldBlockWrite, WouldBlockRead, TimedOutRead, ZeroWrite]
             .iter()
             .map(|k| self.get(*k))
             .sum()
     }
     pub fn terminal_fired(&self) -> u64 {
         use K::*;
-        [EioWrite, EnospcWrite, EioRead, FlushErr, CreateErr, OpenErr].iter().map(|k| self.get(*k)).sum()
+        [EioWrite, EnospcWrite, EioRead, FlushErr, CreateErr, OpenErr, WouldBlockWrite, WouldBlockRead, TimedOutRead, ZeroWrite].iter().map(|k| self.get(*k)).sum()
     }
 }
 
@@ -148,18 +156,30 @@ impl RunIo {
 pub enum TermKind {
     Eio,
     Enospc,
+    /// EAGAIN: the descriptor is non-blocking and not ready (ErrorKind::WouldBlock)
+    Eagain,
+    /// ETIMEDOUT: a network file system gave up (ErrorKind::TimedOut)
+    Timedout,
+    /// write only: the device accepts nothing, `write` answers Ok(0) (std's write_all reports WriteZero);
+    /// on a read it stands for EIO
+    Zero,
 }
 impl TermKind {
     fn err(self) -> Error {
         match self {
-            TermKind::Eio => Error::from_raw_os_error(5),
+            TermKind::Eio | TermKind::Zero => Error::from_raw_os_error(5),
             TermKind::Enospc => Error::from_raw_os_error(28),
+            TermKind::Eagain => Error::from_raw_os_error(11),
+            TermKind::Timedout => Error::from_raw_os_error(110),
         }
     }
     pub fn name(self) -> &'static str {
         match self {
             TermKind::Eio => "EIO",
             TermKind::Enospc => "ENOSPC",
+            TermKind::Eagain => "EAGAIN",
+            TermKind::Timedout => "ETIMEDOUT",
+            TermKind::Zero => "ZERO",
         }
     }
 }
@@ -252,10 +272,19 @@ impl Core {
             let k = match (write, t.kind) {
                 (true, TermKind::Eio) => K::EioWrite,
                 (true, TermKind::Enospc) => K::EnospcWrite,
+                (true, TermKind::Eagain) => K::WouldBlockWrite,
+                (true, TermKind::Timedout) => K::EioWrite,
+                (true, TermKind::Zero) => K::ZeroWrite,
+                (false, TermKind::Eagain) => K::WouldBlockRead,
+                (false, TermKind::Timedout) => K::TimedOutRead,
                 (false, _) => K::EioRead,
             };
             io.k(k);
             io.errors_returned.push((self.id, self.calls, t.kind.name()));
+            if write && t.kind == TermKind::Zero {
+                io.ev(self.id, op, n as u64, 0, "ZERO");
+                return Ok(0);
+            }
             io.ev(self.id, op, n as u64, -5, t.kind.name());
             return Err(t.kind.err());
         }
